@@ -291,6 +291,8 @@ pub mod app1 {
         }
 
         fn view(&self, model: &AppModel) -> View {
+            // (a simulated thread may be parked here, holding the model lock for reading)
+            crux_core::verif::point("app.view.inside");
             View { log: model.log.clone(), reentered: model.reentered }
         }
     }
@@ -355,6 +357,8 @@ pub mod app2 {
         }
 
         fn view(&self, model: &AppModel) -> View {
+            // (a simulated thread may be parked here, holding the model lock for reading)
+            crux_core::verif::point("app.view.inside");
             View { log: model.log.clone(), reentered: model.reentered }
         }
     }
@@ -362,10 +366,13 @@ pub mod app2 {
 
 /// The interpreter app's `update`, shared by both apps and by the direct-command host
 pub fn update_impl<Ef: SimEffect>(event: Event, model: &mut AppModel, legacy: Option<&LegacyCtx>) -> Command<Ef, Event> {
+    *model.handles.caps.lock().unwrap() = legacy.cloned();
     if model.in_update {
         model.reentered = true;
     }
     model.in_update = true;
+    // (a simulated thread may be parked here, holding the model lock for writing)
+    crux_core::verif::point("app.update.inside");
     let cmd = match event {
         Event::Run(cmd) => {
             model.log.push(LogEntry::Run);
